@@ -97,6 +97,9 @@ fn total_nodes(b: &Board, d: u8, cap: u64) -> Option<u64> {
     }
 }
 
+/// Cases run on the real timing path (zero budget, no node clock)
+pub static REAL_ZERO: AtomicU64 = AtomicU64::new(0);
+
 pub struct SweepResult {
     pub deadline_hit: bool,
     pub overrun: u64,
@@ -241,6 +244,61 @@ pub fn one_point_to(which: &str, cache: &RefCache, mg: &MoveGenerator, rep: &Rep
             }
             SweepResult { deadline_hit: hit, overrun, us_per_node: cpu_us / visited }
         }
+    }
+}
+
+/// The engine's real timing path (no node clock): a budget of zero expires before the first
+/// iteration whatever the wall clock says, so the interruption is deterministic without the hook;
+/// the completed search that follows on the same searcher must still report the reference value.
+/// What the node clock replaces (how a deadline is kept, armed and cleared) is only exercised here.
+pub fn real_zero_point(cache: &RefCache, mg: &MoveGenerator, rep: &Report, name: &str, fen: &str, b: &Board, d: u8, first_depth: u8) -> bool {
+    if rep.violation_count.load(Ordering::Relaxed) >= 5 {
+        return false;
+    }
+    let args = vec!["c06-real-zero".to_string(), "--fen".into(), fen.to_string(), "--depth".into(), d.to_string(), "--first-depth".into(), first_depth.to_string()];
+    let _job = crate::watch::enter(format!("C06 fen={} depth={} real-zero no-answer", fen, d), format!("{} ({:?}): a search with a budget of 0 ms, then a search to depth {} without a limit: no answer after {} s of CPU time", name, fen, d, crate::watch::LIMIT_S), args.clone());
+    crate::timer::verif::set_node_clock(None);
+    let r = guard(|| {
+        let mut s = Searcher::new();
+        s.find_best_move(b, first_depth, Some(Duration::ZERO));
+        let interrupted_nodes = s.verif_nodes();
+        let fin = s.find_best_move(b, d, None);
+        (interrupted_nodes, fin)
+    });
+    crate::timer::verif::set_node_clock(Some(1));
+    match r {
+        Err(e) => {
+            rep.violation(format!("C06 fen={} depth={} real-zero panic", fen, d), format!("{} ({:?}): budget 0 ms on the real clock, then depth {}: {}", name, fen, d, e), args, J::Null);
+            false
+        }
+        Ok((_, (score, mv))) => {
+            if let Err(text) = compare(cache, mg, b, d, score, mv) {
+                rep.violation(
+                    format!("C06 fen={} depth={} first-depth={} real-zero value-after-interruption", fen, d, first_depth),
+                    format!("{} ({:?}), real clock (no node clock): a search to depth {} with a budget of 0 ms (cut off before its first iteration), then a completed search to depth {} on the same engine: {}", name, fen, first_depth, d, text),
+                    args,
+                    J::obj().set("score", score).set("move", mv.map(|m| m.to_algebraic())),
+                );
+            }
+            true
+        }
+    }
+}
+
+pub fn replay_real_zero(fen: &str, d: u8, first_depth: u8) -> i32 {
+    let rep = Report::new("C06", "quick", 0);
+    let cache = RefCache::new(200_000);
+    let b = board(fen);
+    real_zero_point(&cache, crate::eng::tl_mg(), &rep, "replay", fen, &b, d, first_depth);
+    let v = rep.violations.lock().unwrap();
+    for x in v.iter() {
+        println!("REPLAY-VIOLATION {} :: {}", x.sig, x.text);
+    }
+    if v.is_empty() {
+        println!("REPLAY-OK C06 real clock, zero budget, {} depth {}", fen, d);
+        0
+    } else {
+        1
     }
 }
 
@@ -1058,6 +1116,16 @@ pub fn run(which: &'static str, tier: &str, seed: u64, out: &str, engine_plain: 
                 evaluations += pairs_done;
                 nontrivial += pr.iter().filter(|r| r.deadline_hit).count() as u64;
             }
+            // the engine's real timing path: a zero budget needs no node clock to be deterministic
+            if which == "C06" && d <= 3 {
+                for first in [d, 64u8] {
+                    if real_zero_point(&cache, crate::eng::tl_mg(), &rep, name, fen, &b, d, first) {
+                        evaluations += 1;
+                        nontrivial += 1;
+                        REAL_ZERO.fetch_add(1, Ordering::Relaxed);
+                    }
+                }
+            }
             // the same crash points delivered through the go command (three ways of stating the budget)
             let mut command_done = 0u64;
             if which == "C06" && d <= 3 && (t <= 700 || thorough) {
@@ -1215,6 +1283,7 @@ pub fn run(which: &'static str, tier: &str, seed: u64, out: &str, engine_plain: 
         .set("real_clock", real_part)
         .set("long_thinking_searchers", big_part)
         .set("rule", "a case = (position, depth, deadline node N) [C06 also (N1, N2)]: fresh Searcher, search interrupted exactly at node N under the node clock; non-trivial = the deadline actually fell inside the search; the budgeted go commands of the command-level histories count as cases too")
+        .set("cases_on_the_real_timing_path_zero_budget_without_the_node_clock", REAL_ZERO.load(Ordering::Relaxed))
         .set("overrun_limit_nodes", OVERRUN_LIMIT)
         .set("work_bound", format!("every interrupted search of the C07 sweeps: CPU time of its thread <= {} us x nodes visited + {} ms", WORK_PER_NODE_US, WORK_BASE_MS))
         .set("costliest_dense_search_cpu_us_per_node", worst_us_per_node)
